@@ -89,7 +89,7 @@ pub fn rng_for(seed: u64, tag: &str) -> ChaCha8Rng {
     ChaCha8Rng::seed_from_u64(seed.wrapping_mul(0x9E3779B97F4A7C15) ^ fnv64(tag))
 }
 
-pub fn rand_big_below(rng: &mut impl RngCore, bound: &BigUint) -> BigUint {
+pub fn rand_big_below(rng: &mut (impl RngCore + ?Sized), bound: &BigUint) -> BigUint {
     // rejection sampling on 256 bits
     loop {
         let mut b = [0u8; 32];
@@ -102,17 +102,17 @@ pub fn rand_big_below(rng: &mut impl RngCore, bound: &BigUint) -> BigUint {
     }
 }
 
-pub fn rand_fr(rng: &mut impl RngCore) -> Fr {
+pub fn rand_fr(rng: &mut (impl RngCore + ?Sized)) -> Fr {
     big_to_fr(&rand_big_below(rng, &p()))
 }
 
-pub fn rand_bytes(rng: &mut impl RngCore, n: usize) -> Vec<u8> {
+pub fn rand_bytes(rng: &mut (impl RngCore + ?Sized), n: usize) -> Vec<u8> {
     let mut v = vec![0u8; n];
     rng.fill_bytes(&mut v);
     v
 }
 
-pub fn pick<'a, T>(rng: &mut impl RngCore, xs: &'a [T]) -> &'a T {
+pub fn pick<'a, T>(rng: &mut (impl RngCore + ?Sized), xs: &'a [T]) -> &'a T {
     &xs[rng.gen_range(0..xs.len())]
 }
 
